@@ -15,6 +15,7 @@
 -/
 import AioftpModel.Py.Time
 import AioftpModel.Generated.Server
+import AioftpModel.Generated.Dates
 
 namespace Model.ListDate
 open Py Py.Time Model.Cal
@@ -112,20 +113,24 @@ def parseRw (s : Str) : Except ModeErr Nat :=
   if s = ['r','w'] then .ok 6 else if s = ['r','-'] then .ok 4
   else if s = ['-','w'] then .ok 2 else if s = ['-','-'] then .ok 0 else .error .keyError
 
-def flagAt (s : Str) (i : Nat) (special : Char) (sv xv : Nat) : Except ModeErr Nat :=
+/-- one of the three `if s[i] == c: mode |= K … elif s[i] != "-": raise ValueError` chains, with the chain
+    itself read off the source by the translator (`Generated.unixModeFlags`, `Generated.unixModeNeutral`) -/
+def flagAt (s : Str) (i : Nat) : Except ModeErr Nat :=
   match s[i]? with
   | none => .error .indexError
-  | some c => if c = special then .ok sv else if c = 'x' then .ok xv
-    else if c ≠ '-' then .error .valueError else .ok 0
+  | some c =>
+    match ((Generated.unixModeFlags.lookup i).getD []).lookup c with
+    | some v => .ok v
+    | none => if Generated.unixModeNeutral.contains c then .ok 0 else .error .valueError
 
 /-- `Client.parse_unix_mode(s)`; the `|=` are on disjoint bits, so they are additions -/
 def parseUnixMode (s : Str) : Except ModeErr Nat := do
   let a ← parseRw ((s.drop 0).take 2)
   let b ← parseRw ((s.drop 3).take 2)
   let c ← parseRw ((s.drop 6).take 2)
-  let f1 ← flagAt s 2 's' 0o4100 0o0100
-  let f2 ← flagAt s 5 's' 0o2010 0o0010
-  let f3 ← flagAt s 8 't' 0o1000 0o0001
+  let f1 ← flagAt s 2
+  let f2 ← flagAt s 5
+  let f3 ← flagAt s 8
   pure (a * 64 + b * 8 + c + f1 + f2 + f3)
 
 end Model.ListDate
